@@ -652,9 +652,15 @@ def _analyse_loader(ctx, prog, anchor, fi, path_params, label):
     if ok:
         c, stream, via = ls[0]
         frame = with_binding(stream.id, c, fi.node, pmap) if isinstance(stream, ast.Name) else None
-        if frame is None or not isinstance(frame[1].context_expr, ast.Call) or opener_info(frame[1].context_expr, mod) is None:
+        opener_call = frame[1].context_expr if frame is not None and isinstance(frame[1].context_expr, ast.Call) else None
+        if opener_call is None and isinstance(stream, ast.Name):
+            # `fh = OPEN(path, "rb")` bound once and closed by hand (try ... finally: fh.close()): the same stream
+            binds = [n for n in ast.walk(fi.node) if isinstance(n, ast.Assign) and any(isinstance(t, ast.Name) and t.id == stream.id for t in n.targets)]
+            if len(binds) == 1 and isinstance(binds[0].value, ast.Call) and binds[0].lineno < c.lineno:
+                opener_call = binds[0].value
+        if opener_call is None or opener_info(opener_call, mod) is None:
             raise AnalysisError("the stream read by %s in %s is not the handle of an enclosing `with <opener>(...)`" % (u(c), fi.qualname))
-        fam, path, mode = opener_info(frame[1].context_expr, mod)
+        fam, path, mode = opener_info(opener_call, mod)
         path = strip_pass_through(path, mod)
         if not (isinstance(path, ast.Name) and path.id in path_params):
             raise AnalysisError("%s opens %s, which is not its trace-path parameter" % (fi.qualname, u(path)))
